@@ -308,6 +308,106 @@ def run_correspondence(ck, consts):
     ck.add_samples([small(c) for c in cases if c["nrows"] >= 2 and case_weight(c) < 4000][:3])
 
 
+LHEADER = ("From Coq Require Import List ZArith NArith Bool String Uint63.\n"
+           "From Qryn Require Import model.Decode model.LokiLabels.\n"
+           "Import ListNotations.\nOpen Scope string_scope.\nOpen Scope Z_scope.\n")
+
+
+def eval_two(ck, name, header, ctor_list_type, cases, fn):
+    """cases evaluated by <fn> : list case -> list Z * list Z -> (mismatch ids, violation ids, output)"""
+    txt = (header + "Definition cases : list %s := [\n  " % ctor_list_type + ";\n  ".join(c["coq"] for c in cases) + "].\n"
+           "Definition R := Eval vm_compute in %s cases.\n"
+           "Definition M := Eval vm_compute in fst R.\nPrint M.\n"
+           "Definition V := Eval vm_compute in snd R.\nPrint V.\n" % fn)
+    rc, out = ck.coq_eval(name, txt)
+    if rc != 0:
+        return None, None, out
+    flat = " ".join(out.split())
+    res = []
+    for k in "MV":
+        m = re.search(r"%s = \[(.*?)\]\s*: list Z" % k, flat)
+        if not m:
+            return None, None, out
+        res.append([int(x) for x in re.findall(r"-?\d+", m.group(1))])
+    return res[0], res[1], out
+
+
+def run_labels(ck):
+    """parseLabelsLokiFormat (text/scanner + strconv.Unquote) against model/LokiLabels.v parse_labels"""
+    cases = []
+    corpus = os.path.join(ROOT, "corpus", PID, "labels.jsonl")
+    env = {"C03_MODE": "labels"}
+    if os.path.exists(corpus):
+        outp = os.path.join(ck.work, "labels_corpus_out.jsonl")
+        rc, out = ck.go_run("decode", ["--cases", corpus, "--out", outp], env_extra=env)
+        ck.obligation("label-string corpus re-run", rc == 0, out[-1500:])
+        if rc == 0:
+            cs = [json.loads(l) for l in open(outp) if l.strip()]
+            for i, c in enumerate(cs):
+                c["id"] = 1000000 + i
+                c["coq"] = re.sub(r"^LCase \d+ ", "LCase %d " % c["id"], c["coq"])
+                c["class"] = "corpus:" + c["class"]
+            cases += cs
+    if ck.replay:
+        rp = json.load(open(ck.replay))
+        if "label_case" in rp:
+            p = os.path.join(ck.work, "labels_replay_in.jsonl")
+            open(p, "w").write(json.dumps({k: v for k, v in rp["label_case"].items() if k != "coq"}) + "\n")
+            outp = os.path.join(ck.work, "labels_replay_out.jsonl")
+            rc, out = ck.go_run("decode", ["--cases", p, "--out", outp], env_extra=env)
+            if rc == 0:
+                cs = [json.loads(l) for l in open(outp) if l.strip()]
+                for i, c in enumerate(cs):
+                    c["id"] = 2000000 + i
+                    c["coq"] = re.sub(r"^LCase \d+ ", "LCase %d " % c["id"], c["coq"])
+                cases += cs
+    n = ck.n(3000, 40000)
+    outp = os.path.join(ck.work, "labels.jsonl")
+    rc, out = ck.go_run("decode", ["--seed", ck.seed, "--n", n, "--out", outp], timeout=600, env_extra=env)
+    if rc != 0:
+        ck.obligation("harness decode (label strings) ran", False, out[-1500:])
+        return
+    cases += [json.loads(l) for l in open(outp) if l.strip()]
+    byid = {c["id"]: c for c in cases}
+    mism, viol = [], []
+    for k in range(0, len(cases), 1500):
+        m, v, out = eval_two(ck, "C03_labels_%d" % (k // 1500), LHEADER, "lcase", cases[k:k + 1500], "lc_check_all")
+        if m is None:
+            ck.obligation("label-string cases evaluated inside Coq", False, out[-2500:])
+            return
+        mism += m
+        viol += v
+    panics = [c for c in cases if c["obs"]["kind"] == "panic"]
+    viol = sorted(set(viol) | {c["id"] for c in panics})
+    nw = sum(1 for c in cases if c["has_src"])
+    ck.obligation("label strings: model LokiLabels.parse_labels = parseLabelsLokiFormat (labels or error) on %d texts" % len(cases),
+                  not mism, "mismatching case ids: %s" % mism[:10])
+    ck.obligation("label strings: every text written from a label list (%d texts, four writers) is read back as that list behind the labels already in the buffer; accepted texts leave the buffer's labels alone; no panic" % nw,
+                  not viol, "violating case ids: %s" % viol[:10])
+    if viol:
+        worst = min((byid[i] for i in viol), key=lambda c: len(c["text"]) if isinstance(c["text"], str) else 10**6)
+        ck.violation({"property": PID, "kind": "a Loki label string is not read back as the label list it was written from (or the parser panicked)",
+                      "class": worst["class"], "label_case": {k: v for k, v in worst.items() if k != "coq"},
+                      "cases_with_this_failure": len(viol),
+                      "explanation": "lc_spec_violation (coq/model/LokiLabels.v): parseLabelsLokiFormat(text, buf) must return buf ++ src",
+                      "replay": "bin/check C03 --replay <this file>"})
+    elif mism:
+        worst = min((byid[i] for i in mism), key=lambda c: len(c["text"]) if isinstance(c["text"], str) else 10**6)
+        ck.violation({"property": PID, "kind": "model/implementation disagree on a label string (labels or error)", "class": worst["class"],
+                      "label_case": {k: v for k, v in worst.items() if k != "coq"}, "broken": "correspondence LokiLabels.parse_labels vs parseLabelsLokiFormat"},
+                     no_input=True)
+    hist = {}
+    for c in cases:
+        key = "labels/" + c["class"] + "/" + c["obs"]["kind"]
+        hist[key] = hist.get(key, 0) + 1
+    ck.extra["label_string_distribution"] = hist
+    ck.coverage["evaluations"] += len(cases)
+    ck.coverage["distinct_nontrivial"] += len({json.dumps(c["text"]) for c in cases if c["obs"]["kind"] == "ok" and len(c["obs"]["labels"]) - len(c["buf"]) >= 2})
+    ck.coverage["rule"] += ("Label strings for parseLabelsLokiFormat: written from label lists by four writers (strconv.Quote joined by , or ', '; escapes chosen at random per byte "
+                            "among raw / simple / \\x / octal / \\u / \\U; white space and comments between tokens), damaged by 1-3 byte edits, token soups; non-trivial = accepted with at least 2 labels; distinct by text. ")
+    ck.add_samples([{k: v for k, v in c.items() if k != "coq"} for c in cases if c["has_src"] and len(c["src"]) >= 2][:2])
+
+
 def run(ck):
     ck.trusted += [
         "C03: the wire decoders (jx, protobuf, the telegraf Influx parser, the Datadog tag regexp, text/scanner for Loki label strings) are crossed by the correspondence only; the harness's serialisers are trusted",
@@ -325,4 +425,8 @@ def run(ck):
         return
     if not ck.quick():
         ck.coqchk(["Qryn.props.C03"])
+    ok, out = ck.coq_make(["model/LokiLabels.vo"])
+    ck.obligation("model/LokiLabels.v builds", ok, out[-1500:])
     run_correspondence(ck, consts)
+    if ok:
+        run_labels(ck)
